@@ -58,7 +58,7 @@ func ioObserver(io *mon.IOLog, dir string, res *core.Result) {
 		res.Add(ev.Kind, 1)
 		switch ev.Kind {
 		case "io.open":
-			if ev.Off == 0 && len(ev.Path) > 5 && ev.Path[len(ev.Path)-5:] == ".data" && dirOf(ev.Path) == dir {
+			if ev.Name == "created" && len(ev.Path) > 5 && ev.Path[len(ev.Path)-5:] == ".data" && dirOf(ev.Path) == dir {
 				res.Add("data_files_created", 1)
 				if ev.Path[len(ev.Path)-14:] != "000000000.data" {
 					res.Add("rotations", 1)
